@@ -1,5 +1,6 @@
 import Bng.Drv.Common
 import Bng.Model.Teardown
+import Bng.Model.TeardownMonitor
 /-
   bngdrv component `teardown`: replays traces of the real pppoe.SessionTeardown and runs the C16 monitor
   (PPPoE teardown paths) on the implementation's observations.
@@ -11,7 +12,7 @@ import Bng.Model.Teardown
     snapshot: stops=<s1:n,…|-> ebpf=<…> padt=<…> held=<s1,…|-> sess=<id:s1,…|->
 -/
 namespace Bng.Drv.TeardownDrv
-open Bng Bng.Drv Bng.Teardown
+open Bng Bng.Drv Bng.Teardown Bng.TeardownMon
 
 def insSorted (k : Nat) : List Nat → List Nat
   | [] => [k]
@@ -50,19 +51,8 @@ def parseOp (toks : List String) : Option Op :=
   | ["tresume", t] => (tagOf t).map .tresume
   | _ => none
 
-/-! ### monitor: implementation observations only -/
-structure Known where
-  name : Nat
-  mac : Nat
-  authed : Bool
-  hasIp : Bool
-  torn : Bool := false      -- its eBPF entry was seen removed: the session has been torn down
-
-structure Mon where
-  radius : Bool := false
-  objs : List Known := []
-  /-- sessions a held TerminateSession call is at work on (tag, name): from the `parked` answers -/
-  busy : List (Nat × Nat) := []
+/-! ### the string layer of the monitor: the observation line → `TeardownMon.Obs`
+   (the monitor itself is `TeardownMon.monitorCore`; its per-session clauses are proved silent on every model history) -/
 
 def field (impl key : String) : String :=
   match (splitTokens impl).find? (fun t => t.startsWith (key ++ "=")) with
@@ -84,65 +74,18 @@ def parseSess (s : String) : List Nat :=
     | [_, n] => parseTagged 's' n
     | _ => none
 
+def parseObs (impl : String) : Obs :=
+  { stops := parseCounts (field impl "stops"), ebpf := parseCounts (field impl "ebpf"), padt := parseCounts (field impl "padt"),
+    held := parseNames (field impl "held"), live := parseSess (field impl "sess"), parked := impl.startsWith "parked" }
+
 def monitor (mn : Mon) (op : Op) (impl : String) : Mon × List (String × String × String) :=
-  let mn := match op with
-    | .mk n m a i => { mn with objs := { name := n, mac := m, authed := a, hasIp := i } :: mn.objs }
-    | .authFail n =>
-      -- a failed re-authentication of a live session; on a torn-down session the flag is never read again
-      { mn with objs := mn.objs.map fun (o : Known) => if o.name == n && !o.torn then { o with authed := false } else o }
-    | _ => mn
-  let stops := parseCounts (field impl "stops")
-  let ebpf := parseCounts (field impl "ebpf")
-  let padt := parseCounts (field impl "padt")
-  let held := parseNames (field impl "held")
-  let live := parseSess (field impl "sess")
-  let get := fun (l : List (Nat × Nat)) (n : Nat) => ((l.find? (·.1 == n)).map (·.2)).getD 0
-  let vs := mn.objs.foldl (fun acc o =>
-    let st := get stops o.name
-    let eb := get ebpf o.name
-    acc ++
-    (if st > 1 then [("double-stop", "none", s!"{st} Accounting-Stops were issued for s{o.name}")] else []) ++
-    (if eb > 1 then [("double-cleanup", "none", s!"the eBPF entry of s{o.name} was removed {eb} times")] else []) ++
-    (if get padt o.name > 1 then [("double-padt", "none", s!"{get padt o.name} PADTs were sent for s{o.name}")] else []) ++
-    -- recorded finding: nothing in pkg/pppoe ever issues the Accounting-Start this Stop belongs to
-    (if st ≥ 1 && !o.torn then [("stop-without-start", "KF-pppoe-no-acct-start", s!"an Accounting-Stop was issued for s{o.name} although no Accounting-Start is ever sent for PPPoE sessions")] else []) ++
-    -- a session that has been torn down (its eBPF entry was removed) holds nothing any more
-    (if eb ≥ 1 then
-      (if held.contains o.name then [("residue", "none", s!"s{o.name} was terminated but its address is still allocated")] else []) ++
-      (if live.contains o.name then [("residue", "none", s!"s{o.name} was terminated but is still in the session table")] else []) ++
-      (if mn.radius && o.authed && st == 0 then [("missing-stop", "none", s!"s{o.name} was terminated without an Accounting-Stop")] else []) ++
-      (if !(mn.radius && o.authed) && st > 0 then [("stop-unstarted", "none", s!"an Accounting-Stop was issued for s{o.name} which was never authenticated")] else [])
-     else
-      (if st > 0 then [("stop-before-end", "none", s!"an Accounting-Stop was issued for s{o.name} which is not torn down")] else []))) []
-  -- a termination request for a session leaves it terminated, whatever state it was in
-  let gone := fun (n : Nat) => !(held.contains n) && !(live.contains n)
-  let vt := match op with
-    | .term n =>
-      -- a call that finds another TerminateSession at work on the session returns at once; that one finishes the job
-      if mn.objs.any (·.name == n) && !gone n && !(mn.busy.any (·.2 == n)) then
-        [("not-terminated", "none", s!"TerminateSession(s{n}) returned but s{n} still holds its address or table entry")] else []
-    | .padt n m =>
-      if mn.objs.any (fun o => o.name == n && o.mac == m) && !gone n then
-        [("not-terminated", "none", s!"client PADT from the owner did not terminate s{n}")] else []
-    | .termAll =>
-      -- sessions a held TerminateSession call is at work on are that call's to finish
-      let mine := fun (n : Nat) => mn.busy.any (·.2 == n)
-      if !(live.all mine) || !(held.all mine) then
-        [("not-terminated", "none", "TerminateAll left sessions or addresses behind")] else []
-    | _ => []
-  -- a held call that goes on leaves its session terminated
-  let vr := match op with
-    | .tresume t =>
-      match mn.busy.find? (·.1 == t) with
-      | some (_, n) => if !gone n then [("not-terminated", "none", s!"the held TerminateSession(s{n}) finished but s{n} still holds its address or table entry")] else []
-      | none => []
-    | _ => []
-  let busy := match op with
-    | .tpark t n => if impl.startsWith "parked" then (t, n) :: mn.busy else mn.busy
-    | .tresume t => mn.busy.filter (·.1 != t)
-    | _ => mn.busy
-  let mn := { mn with busy := busy, objs := mn.objs.map fun (o : Known) => if get ebpf o.name ≥ 1 then { o with torn := true } else o }
-  (mn, vs ++ vt ++ vr)
+  monitorCore mn op (parseObs impl)
+
+/-- order-insensitive comparison of two observations (the line shows everything sorted) -/
+def sameObs (a b : Obs) : Bool :=
+  let sp := fun (l : List (Nat × Nat)) => sortNat (l.map fun p => p.1 * 1000003 + p.2)
+  sp a.stops == sp b.stops && sp a.ebpf == sp b.ebpf && sp a.padt == sp b.padt &&
+  sortNat a.held == sortNat b.held && sortNat a.live == sortNat b.live && a.parked == b.parked
 
 structure St where
   model : Option TD := none
@@ -170,7 +113,10 @@ where
         | .tpark t _ => (if (AMap.lookup m'.parked t).isSome && !(AMap.lookup m.parked t).isSome then "parked " else "done ") ++ showSnap m'
         | .tresume _ => "done " ++ showSnap m'
         | _ => showSnap m'
-      ({ model := some m', mon := mon' }, { modelObs := shown, viols := vs })
+      -- the string layer is outside the refinement theorem: cross-check it on the model's own line
+      let rt := if sameObs (parseObs shown) (obsOf m' (parkedBy m m' op)) then [] else
+        [("obs-roundtrip", "none", s!"parseObs (showSnap ·) ≠ obsOf · on the model's own observation {shown}")]
+      ({ model := some m', mon := mon' }, { modelObs := shown, viols := vs ++ rt })
 
 def component : Component := { σ := St, init := {}, step := step }
 
